@@ -25,7 +25,7 @@ from collections import defaultdict
 from collections.abc import Mapping
 from dataclasses import dataclass
 from functools import partial, reduce
-from itertools import product, starmap
+from itertools import filterfalse, product, starmap
 from types import MappingProxyType as MapProxy
 from typing import Any, Generic, Iterable, Iterator, Literal, Self, Sequence, TypeVar, TYPE_CHECKING
 
@@ -627,7 +627,13 @@ class BaseModel(Generic[MvalT_co], metaclass=ModelsMeta):
             yield data
             if not many_valued:
                 return
-            data = self._get_predicate_data_part(predicate, interp.having(*'BF'))
+            tuples = set(interp.having(*'BF'))
+            if str(self.model.Meta.unassigned_value) in 'BF':
+                # tuples that were never mentioned take the unassigned value
+                tuples.update(filterfalse(
+                    interp.__contains__,
+                    product(self.model.constants, repeat=predicate.arity)))
+            data = self._get_predicate_data_part(predicate, tuples)
             data['symbol'] += '-'
             yield data
 
